@@ -5,7 +5,10 @@ import DadiVerif.Model.Likelihood
    A function table (log, gammaln, sqrt) is `x1,x2,…;y1,y2,…` (`-;-` = empty); the power table is
    `e1,…;x1,…;y1,…` (value of `x^e`).  A visible entry whose argument is missing from a table is an error
    (`err missing_table_entry`), never defaulted.
-   Entries are printed as `--` (masked), `nf` (non-finite in floating point: division by an exact zero) or `num/den`. -/
+   Entries are printed as `--` (masked), `nf` (non-finite in floating point: division by an exact zero) or `num/den`.
+   Round 4: `lik_fold` (the model's `Spectrum.fold`, hand-written and through the C09 fold model), `lik_cellop` (the mask rule of one
+   primitive of the masked-cell algebra: `log`, `sqrt`, `gammaln1`, `mapow:n/d` = numpy.ma.power, `spow:n/d` = Spectrum `**`),
+   `lik_flags` (generated facts about the zeros of the Anscombe residual). -/
 namespace DadiVerif.Driver.Likelihood
 open DadiVerif DadiVerif.Proto DadiVerif.Lik
 
@@ -74,8 +77,51 @@ def llOp (multinom perbin : Bool) (s1 v1 b1 f1 s2 v2 b2 f2 logT lgamT : String) 
   if perbin then some ("ok " ++ showCells res)
   else some ("ok " ++ showCell (if multinom then llMultinom (logT.fn 0) (lgamT.fn 0) M D else ll (logT.fn 0) (lgamT.fn 0) M D))
 
+def showBits (bs : List Bool) : String := if bs.isEmpty then "-" else String.ofList (bs.map fun b => if b then '1' else '0')
+
+def parseFrac (s : String) : Option (Int × Nat) :=
+  match s.splitOn "/" with
+  | [a, b] => do
+      let q ← parseRat a; let d ← parseRat b
+      if q.den = 1 ∧ d.den = 1 ∧ d.num > 0 then some (q.num, d.num.toNat) else none
+  | _ => none
+
+/-- mask of the result of one primitive applied entry-wise (the value functions are irrelevant for the mask) -/
+def cellOp (op : String) (cs : List (Cell Rat)) : Option (List Bool) :=
+  let idf : Rat → Rat := fun x => x
+  match op.splitOn ":" with
+  | ["log"] => some (cs.map fun c => (Cell.maLog idf c).mask)
+  | ["sqrt"] => some (cs.map fun c => (Cell.maSqrt idf c).mask)
+  | ["gammaln1"] => some (cs.map fun c => (Cell.map idf (Cell.add c (Cell.nat 1))).mask)
+  | ["mapow", e] => do
+      let (n, d) ← parseFrac e
+      -- the rule of `Cell.maPower` is the one for fractional exponents (an integer power of a negative base is finite)
+      if (n % (d : Int)) = 0 then none else
+      some (cs.map fun c => (Cell.maPower idf (decide (n < 0)) c).mask)
+  | ["spow", _] => some (cs.map fun c => (Cell.map idf c).mask)
+  | _ => none
+
 def handle (toks : List String) : Option String :=
   match toks with
+  | ["lik_fold", s1, v1, b1, f1] => do
+      let M ← parseSpec s1 v1 b1 f1
+      if M.cells.length != prodL M.shape then some "err shape" else
+      if M.folded then some "err folded" else
+      let A := foldSpec M
+      match foldViaC09 M with
+      | none => some "err c09_raises"
+      | some B =>
+        some ("ok " ++ showList (A.cells.map Cell.val) ++ " " ++ showBits (A.cells.map Cell.mask) ++ " " ++ (if A.folded then "1" else "0")
+              ++ " " ++ showList (B.cells.map Cell.val) ++ " " ++ showBits (B.cells.map Cell.mask) ++ " " ++ (if B.folded then "1" else "0"))
+  | ["lik_cellop", op, vals, bits] => do
+      let vs ← parseList vals
+      let ms ← parseBits bits
+      if vs.length ≠ ms.length then none else
+      let r ← cellOp op (List.zipWith (fun v m => (⟨v, m, false⟩ : Cell Rat)) vs ms)
+      some ("ok " ++ showBits r)
+  | ["lik_flags"] =>
+      some ("ok " ++ (if Gen.Lik.anscombeZeroMasked "data" then "1" else "0") ++ " "
+            ++ (if Gen.Lik.anscombeZeroMasked "model" then "1" else "0"))
   | ["lik_prep", kind, s1, v1, b1, f1, s2, v2, b2, f2] => do
       let M ← parseSpec s1 v1 b1 f1; let D ← parseSpec s2 v2 b2 f2
       if !wellFormed M D then some "err shape" else
